@@ -11,14 +11,14 @@ class C07(core.Check):
     design_ref = "DESIGN.md §5 C07"
     technique = ("Lean 4 invariant proof over a model of the real-time branch of Doist.do and MonoTimer for an arbitrary clock state machine "
                  "+ differential run of the compiled model against Doist.do under a scripted time.time()/time.sleep()")
-    level_text = ("Lean theorems, unconditional, for EVERY clock behaviour (an arbitrary state machine answering time.time() and reacting to time.sleep: steady, stalled, stepped back anywhere incl. inside the constructor and between Doist() and do(), overshooting or waking early, running out), every fuel, every number of cycles, every pattern of extra clock readings by doers, every tock (set at construction, defaulted, or reassigned before the run) and, for the *_any_history forms, every prior state of the timer: never_early (cycle k>=1 begins only when the sum of the non-negative clock increments since the run's first reading is >= k*tock), lossless (every sleep request equals max(0, (k+1)*tock - elapsed real time seen by the timer): deadlines stay on the k*tock grid whatever the lateness), run_tock_is_tock_at_start, plus the scanning forms the oracle evaluates; proved by an invariant over the pacing loop (stop - last = deadline - elapsed). Model = repaired code (3 fix: commits on fix/timer). The model is tied to Doist.do/MonoTimer by a differential run of the full event log under a scripted time.time/time.sleep; the retro default and Tymist.Tock are re-extracted on every run.")
-    level_note = ("Trusted: Lean kernel + propext/Quot.sound; the sampled correspondence (float arithmetic modelled as Int on integers x 2^-10 s, where doubles are exact); the adapter's monkeypatch of time.time/time.sleep is the only clock. Forward clock jumps are outside the property. Time over Int only (no Rat instance).")
+    level_text = ("Lean theorems, unconditional, over EVERY linearly ordered commutative ring of time values (instances stated for Int = what the driver runs, and Rat), for EVERY clock behaviour (an arbitrary state machine answering time.time() and reacting to time.sleep: steady, stalled, stepped back anywhere incl. inside the constructor and between Doist() and do(), overshooting or waking early, running out), every fuel, every number of cycles, every pattern of extra clock readings by doers, every tock (set at construction, defaulted, or reassigned before the run) and, for the *_any_history forms, every prior state of the timer: never_early (cycle k>=1 begins only when the sum of the non-negative clock increments since the run's first reading is >= k*tock), lossless (every sleep request equals max(0, (k+1)*tock - elapsed real time seen by the timer): deadlines stay on the k*tock grid whatever the lateness), run_tock_is_tock_at_start, plus the scanning forms the oracle evaluates; proved by an invariant over the pacing loop (stop - last = deadline - elapsed). Model = repaired code (3 fix: commits on fix/timer). The model is tied to Doist.do/MonoTimer by a differential run of the full event log under a scripted time.time/time.sleep; the retro default and Tymist.Tock are re-extracted on every run. Rounding is outside the exact model: a raw-float stream (fpace: non-dyadic readings/tocks, wake-ups aimed at the float deadline and its neighbours) is judged by a float reference oracle only (tolerance-free: a cycle starts only when the timer shown the run's readings has latest >= its float-accumulated stop; no sleep exceeds stop - latest).")
+    level_note = ("Trusted: Lean kernel + propext/Quot.sound; the sampled correspondence (float arithmetic modelled as Int on integers x 2^-10 s, where doubles are exact); the adapter's monkeypatch of time.time/time.sleep is the only clock. Forward clock jumps are outside the property. Doist.ado (AsyncTimer pacing) is outside C07's text; AsyncTimer itself is modelled under C08.")
     quick_n = 1500
     thorough_n = 120000
     rule = ("cases: (pace base incs ovs tock0 pre n xs): Doist(real=True, tock=tock0|default) built, optional pre-run ops (peek at timer.elapsed, assign doist.tock), "
             "then do() with one doer living n cycles that makes xs[k] extra clock readings in cycle k; the m-th time.time() returns base+incs[0..m] "
             "(steady / stalled / stepped back at every position, incl. inside the constructor and between construction and do()); the j-th time.sleep(d) advances the clock by d+ovs[j] "
-            "(overshoot, exact, early wake / step back while asleep); the run is cut when incs run out.  non-trivial = at least 2 cycles begun and "
+            "(overshoot, exact, early wake / step back while asleep); the run is cut when incs run out; 20% (fpace ...) raw-float cases, oracle only.  non-trivial = at least 2 cycles begun and "
             "(a backward step, a non-zero overshoot or a tock assignment).  distinct by request line")
     trusted_base = ["translator harness/extract/timer.py (Tymist.Tock, MonoTimer retro default)",
                     "correspondence harness/props/C07.py + harness/areas/timer.py: compiled model driver vs Doist.do(real=True) with time.time/time.sleep scripted in the harness process; "
@@ -46,6 +46,9 @@ class C07(core.Check):
             ("pace", 0, (0,) * 40, (96, 0, 0, 0), 32, (), 5, (0, 0, 0, 0, 0)),
             # early wake and step back while asleep
             ("pace", 0, (0,) * 40, (-10, -40, 5), 32, (("peek",),), 3, (1, 0, 2)),
+            # raw floats: sleeps land exactly on the float deadline; tock reassigned
+            ("fpace", 1700000000.123, (0.0,) * 30, (), 0.1, None, 4),
+            ("fpace", 0.1, (0.0, 0.0, 0.0, 0.0, -0.3) + (0.0,) * 30, (0.0, 0.7, -0.01), 0.03, 0.1, 5),
         ]
 
     def exhaustive(self, tier):
@@ -60,22 +63,35 @@ class C07(core.Check):
 
     def generate(self, rng, n, tier):
         for _ in range(n):
-            yield T.gen_pace(rng)
+            yield T.gen_fpace(rng) if rng.random() < 0.2 else T.gen_pace(rng)
+
+    def request(self, case):
+        return T.wrapF(case) if case[0] == "fpace" else case
+
+    def model_applies(self, case):
+        return case[0] != "fpace"      # raw (non-dyadic) floats: oracle only, the model's time is exact
 
     def run_impl(self, case):
+        if case[0] == "fpace":
+            return T.run_fpace(case)
         if case[0] != "pace":
             raise core.Infra(f"bad case {case!r}")
         return T.run_pace(case)
 
     def oracle(self, case, obs):
-        return T.oracle_pace(case, obs)
+        return T.oracle_fpace(case, obs) if case[0] == "fpace" else T.oracle_pace(case, obs)
 
     def nontrivial(self, case, obs):
+        if case[0] == "fpace":
+            return sum(1 for e in obs[0] if e[0] == "c") >= 2
         _, base, incs, ovs, tock0, pre, n, xs = case
         begun = sum(1 for e in obs[1] if e[0] == "c")
         return begun >= 2 and (any(d < 0 for d in incs) or any(o != 0 for o in ovs) or any(p[0] == "tock" for p in pre))
 
     def features(self, case, obs):
+        if case[0] == "fpace":
+            return ["fpace", "fpace:end:" + obs[1], f"fpace:cycles~{min(sum(1 for e in obs[0] if e[0] == 'c'), 10)}"] + \
+                (["fpace:tock-assigned"] if case[5] is not None else []) + (["fpace:backward-step"] if any(d < 0 for d in case[2]) else [])
         _, base, incs, ovs, tock0, pre, n, xs = case
         f = ["end:" + obs[2], f"cycles-begun~{min(sum(1 for e in obs[1] if e[0] == 'c'), 10)}"]
         if any(p[0] == "tock" for p in pre):
@@ -106,9 +122,14 @@ class C07(core.Check):
         return f
 
     def shrink(self, case):
+        if case[0] == "fpace":
+            _, base, incs, ovs, tock0, tock1, n = case
+            return [("fpace", base, incs, ovs, tock0, tock1, n - 1)] if n > 1 else []
         return T.shrink_pace(case)
 
     def mutate(self, rng, case):
+        if case[0] == "fpace":
+            return []
         out = list(T.shrink_pace(case))[:30]
         _, base, incs, ovs, tock0, pre, n, xs = case
         for _ in range(10):
